@@ -509,6 +509,7 @@ type FuncContract struct {
 	NoOverflow  []string
 	Domain      []Clause
 	Writes      []Clause     // per-store assertions (Case = variable name)
+	Chain       bool         // later postconditions may use earlier ones
 	Reveal      bool         // expand opaque spec functions of other packages in this function's VC
 	Findings    []Clause     // known-finding regions (Case = finding name)
 	Allocs      []*STypeExpr // for trusted / interface contracts: kinds the callee may allocate
@@ -704,6 +705,8 @@ func ParseContractFile(src, path string) (cf *ContractFile, err error) {
 				c := mk(strings.TrimSpace(rest[idx+1:]), l.line)
 				c.Case = strings.TrimSpace(rest[:idx])
 				cur.Writes = append(cur.Writes, c)
+			case "chain":
+				cur.Chain = true
 			case "reveal":
 				cur.Reveal = true
 			case "pure":
